@@ -115,6 +115,13 @@ the check re-run on the unchanged tree with several seeds.
   the harness was corrected and an unnecessary /repo change I had drafted was reverted before committing.
 * **Gate-scheduler flakes.** Truncated goroutine dumps, goroutines of earlier runs, a stale busy snapshot in
   `Settle`: all in `harness/vsched`, fixed there (hermetic runs, whitelist of inter-goroutine wait states).
+* **Quiescence taken too early under load (C01, late).** A thorough run and one of the seed sweeps - both running beside
+  other heavy jobs - reported `incomplete-delivery` for schedules that pass when replayed: the publisher and a joiner
+  were both seen waiting for the scheduler's OWN mutex (taken for a few instructions per hook, also by `Settle` itself)
+  in two consecutive samples, which `Settle` took for "everything is blocked inside the code". A wait on a harness
+  mutex is now classified as busy (the innermost frame that is not runtime / sync decides whose lock it is). The
+  replay driver also had a lock-order inversion of its own (runner mutex vs scheduler mutex) that hung one schedule in
+  50 000; a watchdog now dumps schedule and stacks of a run that does not finish.
 * **C12 over-demands.** The first `RtspSession.tla` fixed the answer to a mode-less SETUP after RECORD, let a refused
   SETUP change state and expected a response to a first request that the multiplexer closes; the statement fixes
   none of these, so the model now leaves them open ("any" / dirty state, implicit OPTIONS opener).
@@ -154,6 +161,15 @@ the check re-run on the unchanged tree with several seeds.
   the wrapped RTSP; the server answered and media arrived - but it was the media of the socket's own path (WSP serves
   the stream named by the WebSocket URL). Streams are now recognisable by their SSRC and only media of the requested
   stream counts; never committed as a violation.
+* **C12 over WebSocket (late).** The first run of the request sequences over ws-rtsp expected DESCRIBE of a missing path
+  to be refused; over WebSocket the stream is named by the ws:// path, by design, so the sequences are mapped by opening
+  the socket on the path their DESCRIBE names (never committed as a violation). The same run did expose two genuine
+  defects (empty WebSocket messages, PAUSE before PLAY over WSP).
+* **Management API model (late).** `MgmtApi.tla` first gave the stream listing the same next-page token rule as the
+  route and user listings; the code differs (an empty page carries an empty token). No property says which is right:
+  modelled as found, named as a deviation.
+* **C10 time bases (late).** Source times that are not multiples of 9 ticks lose a tick in the nanosecond conversion of
+  the harness itself; the bases are rounded, and the first segment's start is installed with `VerifStartAt`.
 * **C07.** Random RTCP bytes that form a well-formed sender report are not "malformed"; they are excluded from the
   garbage class (their effect on the time line is the C06 known finding). For one run HLS output after an injection was
   only counted when its key frames carried the stream's own SPS / PPS; C07 says nothing about that (it is C09 / C10
